@@ -389,6 +389,39 @@ fn big_cases(seed: u64) -> Vec<Case> {
     rev.remove(600);
     rev.insert(200, 999_999);
     v.push(Case::full(Algorithm::Lcs, &base, &rev));
+    // lopsided LCS input: more than 65 536 items on one side, three on the other, whose first item matches only at
+    // the far end of the long side while the later ones match early (a table keyed by narrower integers aliases)
+    {
+        let mut old: Vec<u32> = vec![900_001, 900_002];
+        old.extend((0..65_540u32).map(|i| 200_000 + i));
+        old.push(900_000);
+        let new: Vec<u32> = vec![900_000, 900_001, 900_002];
+        v.push(Case::full(Algorithm::Lcs, &old, &new));
+        v.push(Case::full(Algorithm::Lcs, &new, &old));
+    }
+    // blocks moved across bigger blocks, hundreds of edits in ONE divide step: old = j K B S T, new = K S B T'
+    // (all items distinct; keeping B costs 2|S|, keeping S costs 2|B|). An early-exit rule of the middle-snake search
+    // (a "good enough" snake after so many rounds) splits off every shortest path only on shapes like this one.
+    for k in 0..3usize {
+        let b = 255 + rng.below(120) + 40 * k;
+        let sl = 32 + rng.below(200);
+        let kl = 2 * (b + 1) + rng.below(200);
+        let (t1, t2) = (b + rng.below(60), b + rng.below(60));
+        let mut next = 100_000u32 * (k as u32 + 1);
+        let mut block = |n: usize| -> Vec<u32> {
+            let v: Vec<u32> = (0..n as u32).map(|i| next + i).collect();
+            next += n as u32 + 7;
+            v
+        };
+        let (jj, kk, bb, ss, ta, tb) = (block(1), block(kl), block(b), block(sl), block(t1), block(t2));
+        let old: Vec<u32> = [&jj[..], &kk[..], &bb[..], &ss[..], &ta[..]].concat();
+        let new: Vec<u32> = [&kk[..], &ss[..], &bb[..], &tb[..]].concat();
+        if k == 2 {
+            v.push(Case::full(Algorithm::Myers, &new, &old));
+        } else {
+            v.push(Case::full(Algorithm::Myers, &old, &new));
+        }
+    }
     v
 }
 
